@@ -174,6 +174,81 @@ def history_task(task, wdir, res):
         lt.stop()
 
 
+def overlap_task(task, wdir, res):
+    """A flush's index update overlapping a compaction hand-over on the same shard (one of them parked at a step point)."""
+    import time
+    from . import gen
+    from .hist import must_ok
+    rng = random.Random(task["seed"])
+    cfg = dict(shard_count=1, event_per_zone=rng.choice([1, 2]), fill_factor=rng.choice([2, 3]), segments_per_merge=2)
+    cap = cfg["event_per_zone"] * cfg["fill_factor"]
+    lt = Lifetimes(wdir, **cfg)
+    node = lt.start()
+    res.count("tasks")
+    parked_side, point = task["side"], task["point"]
+    witness = {"mode": "overlap", "seed": task["seed"], "config": cfg, "parked": [parked_side, point]}
+    sig = {"template": "overlap_" + parked_side, "group": point.split(".")[0]}
+    mon = Monitor(res, sig, witness)
+    try:
+        must_ok(node.cmd(C.DEFINE), "define")
+        k = 0
+        for seg in range(2):
+            for _ in range(cap):
+                k += 1
+                must_ok(node.cmd(gen.store_cmd("ev", f"c{k % 3}", {"k": k, "v": f"val-{k}"})), "store")
+            node.syncflush()
+        mon.observe(node.meta("fs hash"), "cmd:pre")
+
+        def rotate():
+            nonlocal k
+            for _ in range(cap):
+                k += 1
+                must_ok(node.cmd(gen.store_cmd("ev", f"c{k % 3}", {"k": k, "v": f"val-{k}"})), "store")
+            node.meta("barrier")
+
+        node.meta(f"arm {point} 1 pause")
+        if parked_side == "handover":
+            node.meta("compactbg 0")
+            if not node.meta(f"waitparkedat {point} 5000").get("ok"):
+                res.count("point_not_reached"); node.meta("release"); node.meta("disarm")
+                return
+            before = node.meta("counts")["counts"].get("fr.before_index", 0)
+            rotate()                                   # auto-flush runs into the index update while the hand-over is parked
+            for _ in range(300):
+                if node.meta("counts")["counts"].get("fr.before_index", 0) > before:
+                    break
+                time.sleep(0.01)
+            time.sleep(0.05)
+            node.meta(f"disarmpoint {point}"); node.meta(f"release {point}")
+        else:
+            rotate()
+            if not node.meta(f"waitparkedat {point} 5000").get("ok"):
+                res.count("point_not_reached"); node.meta("release"); node.meta("disarm")
+                return
+            node.meta("compactbg 0")                   # compaction runs into the hand-over while the flush is parked
+            time.sleep(0.25)
+            node.meta(f"disarmpoint {point}"); node.meta(f"release {point}")
+        node._send("@wait compact-0 30000")
+        kind, body = node._read_frame(60)
+        witness["compaction"] = body.decode("utf-8", "replace")[:500]
+        node.syncflush()
+        time.sleep(0.2)
+        mon.observe(node.meta("fs hash"), "cmd:after_overlap")
+        rows_before = sorted(r.get("k") for r in node.cmd("QUERY ev RETURN [k]").dicts())
+        node = lt.restart_clean()
+        mon.at_startup(node.meta("fs hash"))
+        rows_after = sorted(r.get("k") for r in node.cmd("QUERY ev RETURN [k]").dicts())
+        if rows_after != list(range(1, k + 1)):
+            missing = sorted(set(range(1, k + 1)) - set(rows_after))
+            res.violation("rows_lost_after_overlap", sig, f"after restart: missing k={missing[:10]} (before restart {len(rows_before)} rows)", witness)
+        res.evaluations += mon.obs
+        res.nontrivial(("overlap", parked_side, point))
+        res.add_set("points_fired", f"overlap:{parked_side}:{point}")
+        res.sample({"mode": "overlap", "parked": [parked_side, point], "config": cfg, "compaction": witness["compaction"][:120]})
+    finally:
+        lt.stop()
+
+
 def dry_task(task, wdir, res):
     from .c01 import make_history
     cfg, ops = make_history(task["tmpl"], task["seed"], False)
@@ -207,10 +282,20 @@ def run(run):
                        "completeness = .zones/.idx/.icx and the four core column .col/.zfc files per uid present and non-empty "
                        "(optional payload fields legitimately have no column file)"]
     run.parallel(history_task, tasks)
+    otasks = []
+    for rep in range(1 if quick else 6):
+        for side, pts in (("handover", ["ho.locked", "ho.before_save", "ho.saved"]),
+                          ("flush", ["fr.before_index", "idx.tmp_written", "idx.renamed", "fr.index_added", "fl.verified", "fl.published"])):
+            for pnt in pts:
+                otasks.append({"name": f"ov-{side}-{pnt}-{rep}", "seed": run.rng("ov", side, pnt, rep).getrandbits(40), "side": side, "point": pnt})
+    run.parallel(overlap_task, otasks)
 
 
 def replay(run, path):
     with open(path) as f:
         w = json.load(f)["witness"]
+    if w.get("mode") == "overlap":
+        run.parallel(overlap_task, [{"name": "replay", "seed": w["seed"], "side": w["parked"][0], "point": w["parked"][1]}], nproc=1)
+        return
     c = w.get("crash") or {}
     run.parallel(history_task, [{"name": "replay", "tmpl": w["template"], "seed": w["seed"], "point": c.get("point"), "nth": c.get("nth", 0)}], nproc=1)
